@@ -3,8 +3,8 @@ import PoryProofs.ErrLoc2
 Located parser errors, part 3: conditions (auto-var operands, the collecting loops, leaf and nested
 boolean expressions), labels, the switch operand loop.
 -/
-namespace Pory.Parser
-open Pory
+namespace Pory.ErrLoc
+open Pory Pory.Parser
 
 section
 variable (T : List Tok) (E : Tok)
@@ -131,4 +131,4 @@ theorem sp_switchOperandLoop (i : Nat) : ∀ (n : Nat) (parts : List String) (k 
     tgo [ih]
 
 end
-end Pory.Parser
+end Pory.ErrLoc
